@@ -329,6 +329,9 @@ func (g *c18Gen) snapshot() *c18Snap {
 			g.tag("pool-overlap-maybe")
 		}
 		p.Spec.Addresses = g.addresses(blk, native)
+		if blk == blocks && i > 0 && r.Bool() {
+			p.Spec.Addresses = []string{fmt.Sprintf("10.1.%d.0/24", blk)} // contains the first pool without sharing its base address
+		}
 		p.Spec.AvoidBuggyIPs = r.Chance(1, 4)
 		if r.Chance(1, 4) {
 			p.Spec.AutoAssign = ptr.To(r.Bool())
@@ -1178,7 +1181,7 @@ func c18CheckReconcilers(c *vfCase, snap *c18Snap) {
 				ds := diff()
 				detail["differences"] = ds
 				if len(ds) == 0 {
-					c.Violation("handler-called:"+who+":"+kind+"-event", fmt.Sprintf("%s: handler called %d times (expected %d) after: %s; the delivered configurations show no difference", who, got, want, event), c18Detail(s, detail))
+					c.Violation("handler-recalled:"+who+":equal-configuration", fmt.Sprintf("%s: handler called %d times (expected %d) after: %s; the delivered configurations show no difference", who, got, want, event), c18Detail(s, detail))
 					break
 				}
 				for _, cl := range c18Classes(ds)[:1] { // the first differing field names the cause
